@@ -5,6 +5,7 @@ From Fnd Require Export Base.Prelude Model.Config.
 Record probe := Probe {
   p_refused : bool;            (* an ordinary invocation is refused for lack of a configuration *)
   p_symbol : list N;           (* symbol reported by the metadata query *)
+  p_wallets : list (list N);   (* token contracts: issuer, fee setter, fee address setter, redeemer of the token section in force ([] = not set) *)
   p_robot_is : list N;         (* which robot key authorises batchExecute (the key itself) *)
   p_swaps_off_direct : bool;   (* a swap method called directly is refused as a disabled function *)
   p_swaps_off_task : bool;     (* ... and as a task of executeTasks *)
@@ -17,17 +18,27 @@ Proof. solve_decision. Defined.
 Record step := Step { s_admin : bool; s_arg : initarg; o_ok : bool; o_cfg_changed : bool; o_probe : probe }.
 Record case := mkCase { c_token : bool; c_steps : list step }.
 
-Definition probe_of (stored : option cconf) : probe :=
+Definition wal (w : option (list N)) : list N := match w with Some a => a | None => [] end.
+Definition wallets_of (tok : bool) (v : cconf) : list (list N) :=
+  if negb tok then [] else
+  match k_token v with
+  | Some t => [wal (t_issuer t); wal (t_feesetter t); wal (t_feeaddrsetter t); wal (t_redeemer t)]
+  | None => [[]; []; []; []]
+  end.
+Definition probe_for (tok : bool) (v : cconf) : probe :=
+  Probe false (k_symbol v) (wallets_of tok v) (k_robot v) (k_noswaps v) (k_noswaps v) (k_noswaps v) (k_nomulti v).
+Definition no_probe : probe := Probe true [] [] [] false false false false.
+Definition probe_of (tok : bool) (stored : option cconf) : probe :=
   match stored with
-  | None => Probe true [] [] false false false false
-  | Some v => Probe false (k_symbol v) (k_robot v) (k_noswaps v) (k_noswaps v) (k_noswaps v) (k_nomulti v)
+  | None => no_probe
+  | Some v => probe_for tok v
   end.
 
 Fixpoint m_steps (tok : bool) (stored : option cconf) (l : list step) : bool :=
   match l with
   | [] => true
   | s :: r => let '(st', ok) := init_for tok (s_admin s) stored (s_arg s) in
-              Bool.eqb ok (o_ok s) && bool_decide (probe_of st' = o_probe s) && m_steps tok st' r
+              Bool.eqb ok (o_ok s) && bool_decide (probe_of tok st' = o_probe s) && m_steps tok st' r
   end.
 Definition corr (c : case) : bool := m_steps (c_token c) None (c_steps c).
 
@@ -39,11 +50,11 @@ Fixpoint p_steps (tok : bool) (prev : probe) (l : list step) : bool :=
   | s :: r =>
     (if o_ok s
      then s_admin s && match decode (s_arg s) with
-                       | Some v => valid_for tok v && bool_decide (o_probe s = Probe false (k_symbol v) (k_robot v) (k_noswaps v) (k_noswaps v) (k_noswaps v) (k_nomulti v))
+                       | Some v => valid_for tok v && bool_decide (o_probe s = probe_for tok v)
                        | None => false end
      else negb (o_cfg_changed s) && bool_decide (o_probe s = prev)) && p_steps tok (o_probe s) r
   end.
-Definition holds (c : case) : bool := p_steps (c_token c) (Probe true [] [] false false false false) (c_steps c).
+Definition holds (c : case) : bool := p_steps (c_token c) no_probe (c_steps c).
 
 Definition label (c : case) : N :=
   fold_right (fun s a => N.lor a (match s_arg s with IJson true true _ => 1 | IJson _ _ _ => 2 | IPos _ _ _ => 4 end +
